@@ -360,7 +360,14 @@ func sweepKey(c *core.Ctx, rk regKey, pf payloadFault) {
 	detailSets := []struct {
 		name string
 		d    []string
-	}{{"none", nil}, {"one", []string{"d1"}}, {"two", []string{"d1", "d2"}}, {"empty", []string{""}}, {"three", []string{"d1", "d2", "d3"}}}
+	}{{"none", nil}, {"one", []string{"d1"}}, {"two", []string{"d1", "d2"}}, {"empty", []string{""}}, {"three", []string{"d1", "d2", "d3"}},
+		// shaped like printed stack traces, and malformed in ways a printed stack never is
+		{"stack", []string{"\nmain.f\n\t/src/f.go:12\nmain.g\n\t/src/g.go:34"}},
+		{"stack-blank-line", []string{"main.f\n\t/src/f.go:12\n\nmain.g\n\t/src/g.go:34"}},
+		{"stack-no-file", []string{"main.f\nmain.g"}},
+		{"stack-bad-line", []string{"main.f\n\t/src/f.go:notanumber\n\t:\nunknown\n\t"}},
+		{"stack-generic", []string{"pkg.Fn[...]\n\t/src/f.go:1\n]\n\tC:/x.go:2"}},
+		{"newlines", []string{"\n\n", "\t", ":"}}}
 	c.Cover("registry", rk.kind)
 	c.Cover("decoder-key", famShort(rk.key))
 	sampled := false
